@@ -67,7 +67,7 @@ def run_case(rng, idx, tier, lane, ctx):
         wit.append(d)
 
     try:
-        m = S.build_sim(spec, theta, x0, grown=(rng, grow_k) if grow_k else None)
+        m = S.build_sim(spec, theta, x0, grown=(rng, grow_k) if grow_k else None, forms=rng)
     except Exception as e:
         return {"status": "violated", "sample": spec, "counters": counters,
                 "witnesses": [{"what": "model construction raised", "error": short_exc(e), "tb": tb_tail(e)}]}
